@@ -1,3 +1,94 @@
-"""Kani harness runner (filled in below)"""
+"""Kani back end: harnesses live in /verif/kani/*.rs and are compiled INSIDE the real crate through the
+`#[cfg(all(kani, p3r_verif))] mod verif_kani { include!(...) }` hooks, from /repo's current working tree."""
+import os
+import re
+import subprocess
+import time
+
+VERIF = os.path.dirname(os.path.dirname(os.path.abspath(__file__)))
+REPO = os.environ.get('VERIF_REPO', '/repo')
+TARGET = os.path.join(VERIF, '.build', 'kani-target')
+
+
+def _env(profile):
+    e = dict(os.environ)
+    e['P3R_VERIF_DIR'] = VERIF
+    flags = '--cfg p3r_verif'
+    if profile == 'release':
+        flags += ' -C debug-assertions=off'
+    e['RUSTFLAGS'] = flags
+    e['CARGO_TARGET_DIR'] = TARGET + ('-rel' if profile == 'release' else '')
+    e['CARGO_NET_OFFLINE'] = 'true'
+    return e
+
+
+def run_group(crate, profile, harnesses, timeout=1500, playback=False):
+    """one cargo-kani invocation for several harnesses of one crate/profile; returns {harness: result}"""
+    cmd = ['cargo', 'kani', '-p', crate, '-Z', 'stubbing', '-Z', 'function-contracts']
+    if playback:
+        cmd += ['-Z', 'concrete-playback', '--concrete-playback=print']
+    for h in harnesses:
+        cmd += ['--harness', h['harness']]
+    t0 = time.time()
+    try:
+        p = subprocess.run(cmd, capture_output=True, text=True, timeout=timeout, cwd=REPO, env=_env(profile))
+        out = p.stdout + '\n' + p.stderr
+    except subprocess.TimeoutExpired as ex:
+        out = 'TIMEOUT ' + str(timeout)
+    wall = time.time() - t0
+    cmdline = f'P3R_VERIF_DIR={VERIF} RUSTFLAGS="{_env(profile)["RUSTFLAGS"]}" ' + ' '.join(cmd)
+    res = {}
+    # split per harness
+    parts = re.split(r'Checking harness ', out)
+    sections = {}
+    for part in parts[1:]:
+        name = part.split('...')[0].strip()
+        sections[name] = part
+    for h in harnesses:
+        name = h['harness']
+        sec = None
+        for k, v in sections.items():
+            if k.endswith(name) or k.endswith('::' + name):
+                sec = v
+        r = {'harness': name, 'profile': profile, 'cmd': cmdline, 'wall_s': wall / max(len(harnesses), 1), 'failures': [],
+             'n_checks': 0, 'status': 'ok', 'reason': '', 'bounded': h.get('bounded')}
+        if sec is None:
+            r['status'] = 'undecided'
+            tail = out[-1500:]
+            r['reason'] = 'harness did not run (build error, lost hook or timeout): ' + tail
+            res[name] = r
+            continue
+        m = re.search(r'\*\* (\d+) of (\d+) failed', sec)
+        if m:
+            r['n_checks'] = int(m.group(2))
+        if 'VERIFICATION:- SUCCESSFUL' in sec:
+            pass
+        elif 'VERIFICATION:- FAILED' in sec:
+            fails = re.findall(r'Check \d+: (\S+)\s*\n\s*- Status: FAILURE\s*\n\s*- Description: "(.*?)"\s*\n\s*- Location: (.*)', sec)
+            descr = '; '.join(f'{d} @ {loc.strip()}' for (_, d, loc) in fails[:6]) or 'verification failed'
+            if re.search(r'unwinding assertion|CBMC timed out|out of memory', sec):
+                r['status'] = 'undecided'
+                r['reason'] = descr
+            else:
+                r['failures'].append({'id': f'kani.{name}[{profile}]', 'message': descr, 'detail': sec[-6000:], 'input': None})
+        else:
+            r['status'] = 'undecided'
+            r['reason'] = 'no verdict: ' + sec[-800:]
+        res[name] = r
+    return res
+
+
 def run_harness(h, tier):
-    raise NotImplementedError
+    """single harness (driver groups where it can)"""
+    profile = h.get('profile', 'debug')
+    r = run_group(h['crate'], profile, [h])[h['harness']]
+    if r['failures']:
+        # second run to obtain concrete values
+        r2 = run_group(h['crate'], profile, [h], playback=True)[h['harness']]
+        for f in r['failures']:
+            det = r2['failures'][0]['detail'] if r2['failures'] else ''
+            m = re.search(r'Concrete playback unit test.*?```\s*(.*?)```', det, flags=re.S)
+            if m:
+                f['input'] = {'concrete_playback_test': m.group(1)[:4000], 'replay_cmd': None,
+                              'how': f'paste into the hook module of the crate and run `cargo kani playback -Z concrete-playback -- {h["harness"]}`'}
+    return r
